@@ -28,6 +28,7 @@ pub fn run(cfg: &Config) -> i32 {
 	add(&mut total, pf::fam_long_strings(cfg, flags, if cfg.san { 300 } else { 2300 }));
 	add(&mut total, pf::fam_long_lexemes(cfg, flags, if cfg.san { 200 } else { 1200 }));
 	add(&mut total, pf::fam_escape_runs(cfg, flags, if cfg.san { 40 } else { 72 }));
+	add(&mut total, pf::fam_nesting_patterns(cfg, flags, if cfg.san { 70 } else { 200 }));
 	add(&mut total, pf::fam_generated(cfg, flags, cfg.budget(100_000, 3_000_000), false));
 	add(&mut total, pf::fam_generated(cfg, flags, cfg.budget(200_000, 5_000_000), true));
 	if thorough {
